@@ -285,7 +285,7 @@ func main() {
 										for _, side := range []streams.Side{streams.Server, streams.Client} {
 											var frames []streams.Frame
 											mkf := func(o byte, fin bool, p []byte) streams.Frame {
-												f := streams.Frame{H: refmodel.Hdr{Fin: fin, Op: o, Masked: side == streams.Server, Mask: streams.Masks[len(frames)%3]}, Payload: p}
+												f := streams.Frame{H: refmodel.Hdr{Fin: fin, Op: o, Masked: side == streams.Server, Mask: streams.Masks[(len(frames)/2+len(p)+int(o))%3]}, Payload: p}
 												return f
 											}
 											for i, p := range parts {
@@ -388,7 +388,7 @@ func main() {
 									}, func() *explore.Fail {
 										var frames []streams.Frame
 										mkf := func(o byte, fin bool, p []byte) streams.Frame {
-											return streams.Frame{H: refmodel.Hdr{Fin: fin, Op: o, Masked: side == streams.Server, Mask: streams.Masks[len(frames)%3]}, Payload: p}
+											return streams.Frame{H: refmodel.Hdr{Fin: fin, Op: o, Masked: side == streams.Server, Mask: streams.Masks[(len(frames)/2+len(p)+int(o))%3]}, Payload: p}
 										}
 										if nfrag == 1 {
 											frames = append(frames, mkf(1, true, first))
